@@ -49,6 +49,14 @@ CLAIMED = {
          "Theorems in coq/Props/C06.v over the event-trace semantics. Every run places failing sub-expressions in unselected operand positions of if / ?: / && / || / user lazy functions (they must not run) and tracing calls in strict positions (once each, source order), on four back ends, and emits correspondence cases whose observable includes the ordered host-call trace.",
          "Trusted: as C03.",
          "DESIGN.md §5 C06"),
+ "C16": ("Coq proof over the typing relation and the regenerated built-in table; generated programs applying every built-in to an optional argument",
+         "Theorems in coq/Props/C16.v: get(maybe[a], a) is the only built-in signature with an optional parameter (finite check over the table regenerated from fun.BuiltIn()); an optional argument is only accepted by a type-variable or optional parameter pattern (no coercion); member and subscript access on an optional are ill-typed; get yields payload or default. Every run applies every built-in with a concrete parameter to an optional argument (must be rejected at compile time), evaluates the eliminator on present / absent payloads on four back ends, and evaluates programs over host data with nil pointers, slices and maps.",
+         "Trusted: Coq kernel, extraction, driver, harness.",
+         "DESIGN.md §5 C16"),
+ "C20": ("Coq proof over a transcription of ext/sql/compile.go + fun.go specialised to criteria trees; differential correspondence on generated criteria and environments",
+         "Theorems in coq/Props/C20.v: the WHERE text is the printer's token list; read back with standard SQL precedence it has the criteria tree's boolean structure up to associativity; a string operand is strconv.Quote's text, which scanned with backslash escapes ends exactly at its last character; scalar forms. Every run prints generated criteria trees (depth <= 4, all connective nestings, BETWEEN / IN / LIKE / IS NULL, strings with quotes, backslashes, control and non-ASCII bytes, numbers across 2^63, names bound and unbound in the environment) through ext.CompileToSql and compares the text with the model's, re-reads it with a precedence reader and checks every literal.",
+         "Trusted: Coq kernel, extraction, driver, harness. SQL dialect assumed for the literal scan: MySQL default mode (backslash escapes). Ill-typed criteria (which CompileToSql refuses by panicking at construction) are outside the model.",
+         "DESIGN.md §5 C20"),
 }
 NOT_YET = "machinery for this property is not built yet (work in progress in this repository; see DESIGN.md §5)"
 
